@@ -7,7 +7,7 @@ import subprocess
 
 from common import *
 
-PROTOS = ["ssh", "xmpp", "postgres", "socks4", "socks5", "proxy_protocol", "regexp", "clock", "ip", "wireguard", "dns", "rdp", "http", "tls"]
+PROTOS = ["ssh", "xmpp", "postgres", "socks4", "socks5", "proxy_protocol", "regexp", "clock", "ip", "wireguard", "dns", "rdp", "http", "tls", "winbox"]
 CLAUSES = {"C14": ("V1",), "C06": ("M1", "M2", "M3", "M4"), "C04": ("A1", "A2")}
 
 
